@@ -36,7 +36,7 @@ if a.gen_native is not None:
     for k, v in params.items(): env["V_PARAM%d" % k] = str(v)
     r = subprocess.run([exe], capture_output=True, text=True, env=env); print(r.stdout[-3000:]); print("rc", r.returncode); sys.exit(0)
 extra = ["--trace", "--property", a.trace] if a.trace else []
-r = ovmbmc.run_cbmc_once(ovmbmc.cbmc_cmd(gb, a.entry, job, a.solver, extra), a.timeout, 16)
+r = ovmbmc.run_cbmc_once(ovmbmc.cbmc_cmd(gb, a.entry, job, a.solver, extra), a.timeout, 10)
 if r["status"] == "timeout": print("TIMEOUT after", a.timeout); sys.exit(3)
 pr = ovmbmc.parse_cbmc(r["out"])
 st = ovmbmc.stats_from_messages(pr["messages"])
